@@ -6,6 +6,7 @@
 -/
 import Model.Obsolete
 import Lemmas.Obsolete
+import Lemmas.ObsoleteHist
 
 namespace DI.C17
 
@@ -63,6 +64,26 @@ theorem edit_writes_only_own_items (w : World) (r : Nat) (keep : List Nat) (l : 
     (h : (touch w r).1.lists[r]? = some l) (d : Nat) (hd : d ∉ l.items) :
     (step w (.editInPlace r keep)).1.vers[d]? = w.vers[d]? :=
   editInPlace_vers w r keep l h d hd
+
+/-- **whole histories**: along every sequence of calls from every world, the warning of a list is
+    printed at most once, and never again once the list has warned. -/
+theorem warning_at_most_once_ever (r : Nat) (ops : List Op) (w : World) :
+    (∀ l, w.lists[r]? = some l → l.warned = true → warnCount r w ops = 0) ∧ warnCount r w ops ≤ 1 :=
+  warnCount_le_one r ops w
+
+/-- **whole histories**: any chain of non-modifying calls (derive = filter / sort / unique / head /
+    tail / slicing / copy / joins that only select, plain uses, deepcopy) writes no existing dict. -/
+theorem nonmodifying_histories_write_nothing (ops : List Op) (w : World)
+    (h : ∀ op ∈ ops, op.nonModifying = true) : ∃ ext, (runFinal w ops).vers = w.vers ++ ext :=
+  nonmodifying_history_writes_nothing ops w h
+
+/-- one call: the `warned` flag of an existing list changes exactly when it is the receiver and the
+    warning prints. -/
+theorem warned_flag_step (w : World) (op : Op) (i : Nat) (l : LObj) (h : w.lists[i]? = some l) :
+    ∃ l', (step w op).1.lists[i]? = some l' ∧
+      l'.warned = (l.warned || (decide (i = op.recv) && (step w op).2)) := step_warned w op i l h
+
+example : warnCount 0 (init 1) [.editInPlace 0 [0], .use 0, .use 0, .derive 0 [0] 0] = 1 := by decide
 
 /-- non-vacuity: a chain root → filter → sort → modify marks all three ancestors, not the result. -/
 example : ((run (init 2) [.derive 0 [0, 1] 0, .derive 1 [1, 0] 0, .editInPlace 2 [0, 1]]).map
